@@ -131,6 +131,7 @@ type G struct {
 	inLoop int
 	inFunc *Func
 	budget int
+	noIll  int
 	arrLen map[string]int // statically known length of array variables (-1 unknown)
 }
 
@@ -219,7 +220,7 @@ func (g *G) Expr(t Ty, depth int) *Expr {
 
 func (g *G) expr(t Ty, depth int) *Expr {
 	g.budget--
-	if g.F.IllTyped > 0 && g.R.Intn(100) < g.F.IllTyped {
+	if g.F.IllTyped > 0 && g.noIll == 0 && g.R.Intn(100) < g.F.IllTyped {
 		// deliberately produce another type here
 		t2 := g.pickTy()
 		if t2 != t {
@@ -266,20 +267,20 @@ func (g *G) expr2(t Ty, depth int) *Expr {
 				return e
 			}
 		case c == 9 && g.F.BuiltinsCore && g.F.Strings:
-			return &Expr{K: "call", S: "length", A: []*Expr{g.Expr(TStr, depth-1)}}
+			return &Expr{K: "call", S: "length", A: []*Expr{g.arg(TStr, depth-1)}}
 		case c == 10 && g.F.BuiltinsCore && g.F.Arrays:
-			return &Expr{K: "call", S: "length", A: []*Expr{g.Expr(TArrInt, depth-1)}}
+			return &Expr{K: "call", S: "length", A: []*Expr{g.arg(TArrInt, depth-1)}}
 		case c == 11 && g.F.BuiltinsInterp:
 			switch g.R.Intn(4) {
 			case 0:
-				return &Expr{K: "call", S: "abs", A: []*Expr{g.Expr(TInt, depth-1)}}
+				return &Expr{K: "call", S: "abs", A: []*Expr{g.arg(TInt, depth-1)}}
 			case 1:
-				return &Expr{K: "call", S: "min", A: []*Expr{g.Expr(TInt, depth-1), g.Expr(TInt, depth-1)}}
+				return &Expr{K: "call", S: "min", A: []*Expr{g.arg(TInt, depth-1), g.arg(TInt, depth-1)}}
 			case 2:
-				return &Expr{K: "call", S: "max", A: []*Expr{g.Expr(TInt, depth-1), g.Expr(TInt, depth-1)}}
+				return &Expr{K: "call", S: "max", A: []*Expr{g.arg(TInt, depth-1), g.arg(TInt, depth-1)}}
 			default:
 				if g.F.Strings {
-					return &Expr{K: "call", S: "indexOf", A: []*Expr{g.Expr(TStr, depth-1), g.Expr(TStr, depth-1)}}
+					return &Expr{K: "call", S: "indexOf", A: []*Expr{g.arg(TStr, depth-1), g.arg(TStr, depth-1)}}
 				}
 			}
 		case c == 12 && g.F.Match:
@@ -325,7 +326,7 @@ func (g *G) expr2(t Ty, depth int) *Expr {
 		case c < 4:
 			return &Expr{K: "bin", Op: "+", A: []*Expr{g.Expr(TStr, depth-1), g.Expr(TStr, depth-1)}}
 		case c == 4 && g.F.BuiltinsCore:
-			return &Expr{K: "call", S: []string{"upper", "lower", "trim"}[g.R.Intn(3)], A: []*Expr{g.Expr(TStr, depth-1)}}
+			return &Expr{K: "call", S: []string{"upper", "lower", "trim"}[g.R.Intn(3)], A: []*Expr{g.arg(TStr, depth-1)}}
 		case c == 5 && g.F.Objects && g.F.Strings:
 			if e := g.fieldExpr("s"); e != nil {
 				return e
@@ -337,11 +338,11 @@ func (g *G) expr2(t Ty, depth int) *Expr {
 		case c == 7 && g.F.BuiltinsInterp:
 			switch g.R.Intn(3) {
 			case 0:
-				return &Expr{K: "call", S: "toString", A: []*Expr{g.Expr(TInt, depth-1)}}
+				return &Expr{K: "call", S: "toString", A: []*Expr{g.arg(TInt, depth-1)}}
 			case 1:
-				return &Expr{K: "call", S: "charAt", A: []*Expr{g.Expr(TStr, depth-1), {K: "int", I: int64(g.R.Intn(4))}}}
+				return &Expr{K: "call", S: "charAt", A: []*Expr{g.arg(TStr, depth-1), {K: "int", I: int64(g.R.Intn(4))}}}
 			default:
-				return &Expr{K: "call", S: "substring", A: []*Expr{g.Expr(TStr, depth-1), {K: "int", I: int64(g.R.Intn(3))}, {K: "int", I: int64(2 + g.R.Intn(4))}}}
+				return &Expr{K: "call", S: "substring", A: []*Expr{g.arg(TStr, depth-1), {K: "int", I: int64(g.R.Intn(3))}, {K: "int", I: int64(2 + g.R.Intn(4))}}}
 			}
 		case c == 8 && g.F.Match:
 			return g.matchExpr(TStr, depth-1)
@@ -389,9 +390,9 @@ func (g *G) expr2(t Ty, depth int) *Expr {
 		case c == 8:
 			return &Expr{K: "un", Op: "!", A: []*Expr{g.Expr(TBool, depth-1)}}
 		case c == 9 && g.F.BuiltinsCore && g.F.Strings:
-			return &Expr{K: "call", S: "contains", A: []*Expr{g.Expr(TStr, depth-1), g.Expr(TStr, depth-1)}}
+			return &Expr{K: "call", S: "contains", A: []*Expr{g.arg(TStr, depth-1), g.arg(TStr, depth-1)}}
 		case c == 10 && g.F.BuiltinsInterp && g.F.Strings:
-			return &Expr{K: "call", S: []string{"startsWith", "endsWith"}[g.R.Intn(2)], A: []*Expr{g.Expr(TStr, depth-1), g.Expr(TStr, depth-1)}}
+			return &Expr{K: "call", S: []string{"startsWith", "endsWith"}[g.R.Intn(2)], A: []*Expr{g.arg(TStr, depth-1), g.arg(TStr, depth-1)}}
 		}
 		return &Expr{K: "bool", B: g.R.Intn(2) == 0}
 	case TArrInt, TArrStr:
@@ -416,6 +417,14 @@ func (g *G) expr2(t Ty, depth int) *Expr {
 		return lit("null")
 	}
 	return g.intLit()
+}
+
+// arg generates a builtin argument: never ill-typed on purpose (what builtins do with
+// wrongly typed arguments differs between the engines and is C04's subject).
+func (g *G) arg(t Ty, depth int) *Expr {
+	g.noIll++
+	defer func() { g.noIll-- }()
+	return g.Expr(t, depth)
 }
 
 func (g *G) strOrInt(depth int) *Expr {
@@ -542,7 +551,7 @@ func (g *G) stmt(depth int, retT Ty) *Stmt {
 		if vs := g.varsOf(t); len(vs) > 0 {
 			v := vs[g.R.Intn(len(vs))]
 			delete(g.arrLen, v)
-			return &Stmt{K: "assign", Name: v, E: g.Expr(t, 3)}
+			return &Stmt{K: "assign", Name: v, E: g.expr2(t, 3)}
 		}
 		return g.declStmt(TInt)
 	case c < 12:
@@ -625,7 +634,9 @@ func (g *G) stmt(depth int, retT Ty) *Stmt {
 
 func (g *G) declStmt(t Ty) *Stmt {
 	n := g.fresh("v")
-	e := g.Expr(t, 3)
+	// the top-level node has the declared type (so the recorded type of the variable is
+	// right); sub-expressions may still be ill-typed and make the statement fail
+	e := g.expr2(t, 3)
 	if (t == TArrInt || t == TArrStr) && g.R.Intn(3) != 0 {
 		// mostly literal arrays of known, non-zero length so that indexing has something to hit
 		et := TInt
